@@ -40,6 +40,17 @@ BadCred(c, m, k) ==
             ELSE IF k \in NonceDefects THEN {Challenge(c, m)}    \* 438
             ELSE {Err(c, m, 0)}
 
+(* an Allocate that repeats the transaction id of the Allocate which created c's allocation -- what a retransmission *)
+(* looks like -- but with defective credentials: the retransmission cache is behind the gate, not in front of it    *)
+BadCredReplay(c, k) ==
+  /\ Live(c)
+  /\ last' = [a |-> "BadCred", c |-> c, m |-> "Allocate", k |-> k, tx |-> alloc[c].tx]
+  /\ UNCHANGED state
+  /\ out' = IF k = "noMI" THEN {Challenge(c, "Allocate")}
+            ELSE IF ~HasAuth THEN {Err(c, "Allocate", 0)}
+            ELSE IF k \in NonceDefects THEN {Challenge(c, "Allocate")}
+            ELSE {Err(c, "Allocate", 0)}
+
 (* with no handler configured even perfect credentials achieve nothing *)
 NoHandler(c, m) ==
   /\ ~HasAuth
@@ -51,6 +62,7 @@ AuthNext ==
   \/ (HasAuth /\ Next)
   \/ (~HasAuth /\ \E c \in Clients : Binding(c))
   \/ \E c \in Clients, m \in Methods, k \in CredKinds : BadCred(c, m, k)
+  \/ \E c \in Clients, k \in CredKinds : BadCredReplay(c, k)
   \/ \E c \in Clients, m \in Methods : NoHandler(c, m)
 
 AuthSpec == Init /\ [][AuthNext]_vars
